@@ -188,7 +188,7 @@ def run(ctx):
                     fs = dict(zip(s['rv']['kind']['fields'], s['rv']['ops']))
                     tag = ctx.eng.operand(b, blk['i'], si, fs['extension_degree'])
                     d1 = ctx.eng.operand(b, blk['i'], si, fs['d1'])
-                    rngs = generator_ranges(ctx.eng.expand(d1))
+                    rngs = generator_ranges(ctx.eng.expand(d1), ctx)
                     tag_x = ctx.eng.expand(tag)
                     ok = bool(rngs) and all(any(y is tag or y is tag_x for y in walk(r[2])) and r[1].tag == 'const' and r[1][1] == 0 for r in rngs)
                     fn = b.path.split('::')[-1]
@@ -200,8 +200,9 @@ def run(ctx):
     rep.note('verifier reads of proof.extension_degree: %d' % reads)
 
 
-def generator_ranges(t):
-    """ranges that drive the element generation of a collection term: follows zip / map / phi / mut structure only"""
+def generator_ranges(t, ctx=None):
+    """ranges that drive the element generation of a collection term: follows zip / map / phi / mut structure only; a vector
+    created empty and filled by a push in a loop over a range is driven by that range"""
     out = []
     stack = [t]
     seen = set()
@@ -217,6 +218,14 @@ def generator_ranges(t):
             stack.extend([x[1], x[2]])
         elif k in ('map', 'enumerate', 'mut', 'adapt', 'via'):
             stack.append(x[2] if k in ('adapt', 'via') else x[1])
+            if k == 'mut' and ctx is not None:
+                for e in x[2]:
+                    if e.tag == 'ev' and e[1] == 'call' and e[2].endswith('::push') and e[4]:
+                        bkey, pbb = e[4][-1]
+                        body = ctx.facts.by_key.get(bkey)
+                        lps = ctx.enclosing_loops(body, pbb) if body is not None else []
+                        if lps and lps[-1].iter_term is not None and lps[-1].driver_only_exit and ctx.every_iteration(body, lps[-1], pbb):
+                            stack.append(lps[-1].iter_term)
         elif k == 'phi':
             stack.extend(x.args)
     return out
